@@ -20,7 +20,9 @@ THEOREMS = {
         "Dawgs.C04.Sites.format_write_sites_covered", "Dawgs.C04.Sites.format_helpers_in_place", "Dawgs.C04.Sites.format_table_nonempty",
         "Dawgs.C04.Sites.translate_sites_classified", "Dawgs.C04.Sites.symbols_never_rewritten", "Dawgs.C04.Sites.rows_all_live", "Dawgs.C04.Sites.user_text_rows_escaped",
         "Dawgs.C04.Sites.const_rows_are_const", "Dawgs.C04.Sites.known_findings_are_rows", "Dawgs.C04.Sites.like_guards",
-        "Dawgs.C04.Sites.sites_table_nonempty",
+        "Dawgs.C04.Sites.sites_table_nonempty", "Dawgs.C04.Sites.unguarded_rows_named", "Dawgs.C04.Sites.guard_calls_in_place",
+        "Dawgs.C04.Sites.guard_ascii_table", "Dawgs.C04.Sites.guard_shape", "Dawgs.C04.Sites.builder_accepts_bare",
+        "Dawgs.C04.Sites.builder_name_one_token",
     ],
 }
 
@@ -110,9 +112,11 @@ SPEC = {
             "nested map literals are rejected by the translator today), property key incl. back-ticked, map key, kind name, variable name, result alias, parameter name, supplied parameter "
             "value bound (string, list, JSONB map incl. nested values and map keys) and materialised, text reaching the SQL handed to the shortest-path functions as bound parameter and as nested literal) x hostile "
             "strings (fixed list of quotes, backslashes, comment openers, dollar quotes, @name, semicolons, NUL-free control characters, non-BMP runes, "
-            "64 KiB strings, trailing backslash/quote; plus random fragment concatenations from splitmix64(VERIF_SEED)) x Cypher encodings (single-quoted, "
+            "64 KiB strings, trailing backslash/quote, one name per ASCII non-identifier character and per Unicode symbol/punctuation/mark/number category; plus random fragment concatenations from splitmix64(VERIF_SEED)) x Cypher encodings (single-quoted, "
             "double-quoted, escape sequences, bare, back-ticked); each case translates the hostile query and a benign twin with the real code and the Lean "
-            "lexer compares the two SQL texts; non-trivial = both twins were translated; distinct = distinct op lines. suite c04q: every generated string "
+            "lexer compares the two SQL texts; a second family feeds the same texts to every name- and value-taking function of the query builders (query/v2 As, NewScope, "
+            "Variable, NamedParameter, kinds, property names, SetProperties/RemoveProperties, values; query Variable, NodeProperty, values) and of the pg driver's "
+            "statement builders (identity properties of upserts) without passing the Cypher lexer: the builder refuses the text or the emitted SQL is judged the same way; non-trivial = both twins were translated; distinct = distinct op lines. suite c04q: every generated string "
             "through the real formatValue / formatIdentifier / NewStringLiteral / decodeCypherStringLiteral / UnescapePropertyKeyName vs the Lean functions, exact equality",
     "expected_branches": ["translated.lit", "translated.key", "translated.ident", "translated.kindname", "translated.param", "translated.paramlist",
                           "rejected.ident", "decode.ok", "decode.err:decode-invalid-escape", "decode.err:decode-dangling", "decode.err:decode-bad-literal"],
